@@ -21,6 +21,9 @@ fn emit(ctx: &mut GenCtx, family: &str, quads: &[Q], hash: &str, df: f32, pl: us
     ctx.stats.bump(&format!("family.{}", family));
     ctx.stats.bump(&format!("container.{}", cont));
     ctx.stats.bump(&format!("hash.{}", hash));
+    if has_self_ref(quads) {
+        ctx.stats.bump("shape.self_ref_quad");
+    }
     if df != 1.0 || pl != 6 {
         ctx.stats.bump("limits.non_default");
     }
@@ -160,6 +163,65 @@ pub fn generate(ctx: &mut GenCtx) {
                 }
             }
         }
+    }
+    // --- shapes the audit found missing ---------------------------------------------------------------
+    // empty dataset, datasets without blank nodes, a literal as graph name (generalized RDF: `"` sorts before `.`)
+    {
+        let lit = |s: &str| T::Lit(s.into(), XSD_STRING.into());
+        let raw: Vec<(&str, Vec<Q>)> = vec![
+            ("empty", vec![]),
+            ("bnode_free", vec![quad(iri("x:s"), iri(P0), iri("x:o"), None)]),
+            ("bnode_free", vec![quad(iri("x:s"), iri(P0), lit("a b"), Some(iri(G0))), quad(iri("x:s"), iri(P0), lit("a b"), None),
+                                quad(iri("x:s"), iri(P0), iri("x:o"), None), quad(iri("x:s2"), iri(P1), T::Lang("a".into(), "en".into()), None)]),
+            ("literal_graph", vec![quad(bn(0), iri(P0), bn(1), Some(lit("g"))), quad(bn(0), iri(P0), bn(1), None),
+                                   quad(bn(1), iri(P0), bn(0), Some(iri(G0)))]),
+        ];
+        for (name, d) in raw {
+            for cont in ["ord", "hashset", "light"] {
+                for hash in ["sha256", "sha384"] {
+                    let r = Req { hash: hash.into(), df: 1.0, pl: 6, cont: cont.into(), seed: 0, quads: d.clone() };
+                    ctx.stats.bump(&format!("shape.{}", name));
+                    ctx.emit(&r.render());
+                }
+            }
+        }
+    }
+    // related lists of 3-6 pairwise distinguishable (non-automorphic) nodes: which permutation wins decides the labels
+    for k in 3..=(if th { 6 } else { 4 }) {
+        for (ncopies, near_twin) in [(2usize, false), (2, true), (1, false)] {
+            if k >= 5 && !(ncopies == 2 && near_twin) {
+                continue;
+            }
+            let base = hub_siblings(k, ncopies, near_twin, k % 2 == 1);
+            ctx.stats.bump(&format!("shape.distinct_related_{}", k));
+            emit_variants(ctx, "hub_siblings", &base, if k <= 4 { var_n + 1 } else { 1 });
+        }
+    }
+    // blank nodes told apart only by WHICH IRI-named graph links them to which neighbour (finding
+    // C05-rdfc10-ambiguous-tie: RDFC-1.0 itself does not determine the output there)
+    {
+        let d = vec![quad(bn(0), iri(P1), bn(2), Some(iri(G0))), quad(bn(0), iri(P1), bn(3), Some(iri("x:g1"))),
+                     quad(bn(1), iri(P1), bn(2), Some(iri("x:g1"))), quad(bn(1), iri(P1), bn(3), Some(iri(G0))),
+                     quad(bn(1), iri("x:r0"), iri("x:o"), None)];
+        ctx.stats.bump("shape.graph_iri_tie");
+        emit_variants(ctx, "graph_iri_tie", &d, 2);
+    }
+    // >= 10 temporary identifiers in a component that is not vertex-transitive (b9 / b10: path lengths differ)
+    for (len, variant) in [(9usize, 0usize), (9, 1), (10, 2), (8, 1)] {
+        if !th && len != 9 {
+            continue;
+        }
+        let base = if variant == 0 { smaller_path_family(len, 2, 0) } else { smaller_path_family2(len, 2, variant) };
+        ctx.stats.bump("shape.temp_ids_ge_10");
+        emit_variants(ctx, "two_digit_temp_ids", &base, 2);
+    }
+    // >= 11 canonical identifiers issued before an ambiguous pair is processed (c14n9 / c14n10 inside paths)
+    for n in [12usize, 11] {
+        if !th && n != 12 {
+            continue;
+        }
+        ctx.stats.bump("shape.canonical_ids_ge_11");
+        emit_variants(ctx, "two_digit_canonical_ids", &canonical_ids_then_twins(n), 2);
     }
     // nodes reached by recursion from an earlier hash group: two cycles joined through distinguishable tails
     let mut two = cycle(3, P0);
